@@ -151,7 +151,7 @@ class StatelessClassRule(BaseLintRule):  # thailint: ignore[srp,dry]
             StatelessClassConfig instance
         """
         if not hasattr(context, "config") or context.config is None:
-            return StatelessClassConfig()
+            return self._load_config_from_metadata(context)
 
         config_dict = context.config
         if not isinstance(config_dict, dict):
@@ -160,6 +160,17 @@ class StatelessClassRule(BaseLintRule):  # thailint: ignore[srp,dry]
         # Check for stateless-class specific config
         linter_config = config_dict.get("stateless-class", config_dict)
         return StatelessClassConfig.from_dict(linter_config)
+
+    def _load_config_from_metadata(self, context: BaseLintContext) -> StatelessClassConfig:
+        """Load configuration from orchestrator metadata (config file sections)."""
+        metadata = getattr(context, "metadata", None)
+        if not isinstance(metadata, dict):
+            return StatelessClassConfig()
+        for key in ("stateless_class", "stateless-class"):
+            section = metadata.get(key)
+            if isinstance(section, dict):
+                return StatelessClassConfig.from_dict(section)
+        return StatelessClassConfig()
 
     def _is_file_ignored(self, context: BaseLintContext, config: StatelessClassConfig) -> bool:
         """Check if file matches ignore patterns.
